@@ -222,6 +222,27 @@ func checkC02(c C02Case, o *Obs) error {
 				return err
 			}
 		}
+		// A consumer owns the records it received: modifying them in place while iterating
+		// must not affect the records that follow.
+		i := 0
+		for fq, err := range fastq.Reader(bytes.NewReader(all.Bytes())) {
+			if err != nil || i >= len(c.Recs) {
+				return fmt.Errorf("second pass: item %d: unexpected item (error %v)", i, err)
+			}
+			if err := sameFastq(fqItem{fq, nil}, c.Recs[i].Name, seqs[i], quals[i], i); err != nil {
+				return fmt.Errorf("after the consumer modified the records it received earlier in the same pass: %v", err)
+			}
+			for _, fld := range []*[]byte{&fq.Name, &fq.Sequence, &fq.Quals} {
+				for j := range *fld {
+					(*fld)[j] ^= 0x5a
+				}
+				*fld = append(*fld, "scribble"...)
+			}
+			i++
+		}
+		if i != len(c.Recs) {
+			return fmt.Errorf("second pass yields %d records, want %d", i, len(c.Recs))
+		}
 		return nil
 	}
 
